@@ -59,7 +59,7 @@ CFG = {
     "assumptions": ["finite coordinates (no NaN/Inf); membership is the even-odd rule over all rings of all member polygons (what geom.pointInPolygonal implements)"],
     "rule": "integer-grid operand pairs (star-shaped / rectilinear / inscribed-convex / rectangular shells, 0-2 holes strictly inside, multi-polygons of 1-3 disjoint members incl. a member inside another's hole, boxes) in forced configuration classes "
             "(overlapping, nested, disjoint-with-overlapping-boxes, box-disjoint, box-separated along exactly one axis, identical boxes) x 9 receiver/argument type pairs x 4 operations + area identities; "
-            "distinct = distinct input line; non-trivial = verdict class not '-outside-quantifier' (invalid or non-general-position corpus cases, compared with the model only)",
+            "40% of the cases at coordinate scales 2^-20/2^-24/2^-30/2^+20 (dyadic: exact), multi-call histories on one line with operands overwritten in place, operands over one flat backing array and compared with a snapshot after each call, size-threshold cases (vertex/ring/member counts beyond 64/128/1024; lines of 1024..3000 vertices); distinct = distinct input line; non-trivial = verdict class not '-outside-quantifier' (invalid or non-general-position corpus cases, compared with the model only)",
     "trivial_class": r"outside-quantifier$",
     "pregen": pin_polyclip,
     "timeout": {"quick": 600, "thorough": 3000},
